@@ -344,7 +344,7 @@ impl World {
     pub fn new_tok(&mut self, child: u32, seq: u32, kind: u32) -> Tok {
         let id = self.toks.len() as u32;
         self.toks.push(TokSt {
-            nodrop: self.raw_outputs && kind != K_UPERR,
+            nodrop: self.raw_outputs,
             child,
             seq,
             kind,
